@@ -306,6 +306,13 @@ pub fn read_back(
                 };
                 msg.decrypt_with_session_key(sk).map_err(e)?
             }
+            "session_streaming" => {
+                // SEIPDv1 read in streaming mode (the default reads the whole container first)
+                let key = session_key.ok_or("no session key")?.to_vec();
+                let sk = PlainSessionKey::V3_4 { sym_alg: sym_by_name(cfg["enc"]["cipher"].as_str().unwrap()), key: key.into() };
+                let ring = pgp::composed::TheRing { session_keys: vec![sk], decrypt_options: pgp::composed::DecryptionOptions::new().set_seipdv1_read_mode(pgp::types::Seipdv1ReadMode::Streaming), ..Default::default() };
+                msg.decrypt_the_ring(ring, true).map_err(e)?.0
+            }
             "password" => {
                 let pw: Password = cfg["passwords"][opener.1]["pw"].as_str().unwrap().into();
                 msg.decrypt_with_password(&pw).map_err(e)?
